@@ -278,7 +278,7 @@ class kFlowDecompCycles(walkmodel.AbstractWalkModelDiGraph):
 
         for i, weight in enumerate(weights):
             self.solver.add_constraint(
-                self.path_weights_vars[i] == weight,
+                self.path_weights_vars[i] == float(weight),
                 name=f"given_weight_{i}",
             )
 
